@@ -269,6 +269,26 @@ func famTail(c *fw.Ctx, emit emitFn) {
 			emit(body, sh.nt)
 		}
 	}
+	// a frame re-used by a discarded self call is left by an error that an outer frame catches; afterwards other
+	// functions are called at the same depth: they must return their values
+	for _, depth := range []int64{0, 1, 2, 3} {
+		for _, form := range []int{0, 1} {
+			thrower := fn([]string{"n"}, false, gen.If{Cond: isZero, Then: []gen.Stmt{gen.Throw{X: gen.StrLit{V: "t"}}}}, gen.ExprStmt{X: call("g", nm1)})
+			if form == 1 {
+				thrower = fn([]string{"n"}, false, gen.If{Cond: isZero, Then: []gen.Stmt{gen.ExprStmt{X: bin("/", gen.IntLit{V: 1}, bin("-", n, n))}}}, gen.ExprStmt{X: call("g", nm1)}, gen.Return{})
+			}
+			body := []gen.Stmt{gen.Var{N: "g"}, set("g", thrower),
+				def("h", fn([]string{"x"}, false, ret(bin("*", gen.Name{N: "x"}, gen.IntLit{V: 2})))),
+				gen.Var{N: "fact"}, set("fact", fn([]string{"k"}, false, gen.If{Cond: bin("==", gen.Name{N: "k"}, gen.IntLit{V: 0}), Then: []gen.Stmt{ret(gen.IntLit{V: 1})}}, ret(bin("*", gen.Name{N: "k"}, call("fact", bin("-", gen.Name{N: "k"}, gen.IntLit{V: 1})))))),
+				def("r", gen.Arr{}),
+				gen.Try{Body: []gen.Stmt{gen.ExprStmt{X: call("g", gen.IntLit{V: depth})}}, HasCatch: true, CatchName: "e", Catch: []gen.Stmt{set("r", bin("+", gen.Name{N: "r"}, gen.Arr{E: []gen.Expr{gen.StrLit{V: "caught"}}}))}},
+				set("r", bin("+", gen.Name{N: "r"}, gen.Arr{E: []gen.Expr{call("h", gen.IntLit{V: 21}), call("fact", gen.IntLit{V: 4}), call("h", gen.IntLit{V: 1})}})),
+				ret(gen.Name{N: "r"})}
+			emit(body, true)
+			// the same inside a function (frames one deeper)
+			emit([]gen.Stmt{ret(gen.Call{Fn: gen.Paren{X: fn(nil, false, body...)}})}, true)
+		}
+	}
 	// variadic / spread self calls in tail position: parameters bound beyond the pushed arguments
 	r := gen.Name{N: "r"}
 	vshapes := []gen.Expr{
